@@ -306,6 +306,22 @@ func cycle(g *gen.G, w *world, orig bool, st *stats) {
 		stopArg = 1 + g.Intn(100)
 	case stopMode < 8:
 		stopArg = 50 + g.Intn(1500)
+		if g.Chance(2, 3) { // quick start-up, eager clients, long proofs: requests in flight at stop time
+			for j := range startD {
+				for i := range startD[j].v {
+					startD[j].v[i] = g.Intn(2)
+				}
+			}
+			for _, c := range clients {
+				for i := range c.d.v {
+					if i%2 == 0 {
+						c.d.v[i] = g.Intn(30)
+					} else {
+						c.d.v[i] = 200 + g.Intn(2000)
+					}
+				}
+			}
+		}
 	default: // after all requests have completed
 		stopArg = g.Intn(200)
 	}
